@@ -3,6 +3,7 @@ package patch
 import (
 	"fmt"
 	"reflect"
+	"runtime/debug"
 	"strconv"
 	"strings"
 	"syscall"
@@ -320,6 +321,9 @@ func deref(a []interface{}) []interface{} {
 
 // TestVerifC15Site is the entry point of the call-site lane.
 func TestVerifC15Site(t *testing.T) {
+	// code is executed from overwritten functions and from an mmap'ed page, for which the runtime has no (or the wrong)
+	// stack maps: no collection while this lane runs (the check also switches asynchronous preemption off)
+	debug.SetGCPercent(-1)
 	out := vh.OpenOut()
 	defer out.Close()
 	for _, op := range vh.ReadOps() {
